@@ -51,7 +51,7 @@ REGISTRY["C11"] = dict(level="proof", theorems=T("C11", "C11_swap_ok", "C11_swap
                        oracles=[P.o_spec, P.o_documented_panics, P.o_views])
 REGISTRY["C12"] = dict(level="proof", theorems=[], cases=P.cases_C12, projection=proj_behaviour,
                        oracles=[P.o_spec, P.o_leak, P.o_views, P.o_no_defect_panic])
-REGISTRY["C13"] = dict(level="proof", theorems=[], cases=P.cases_C13, projection=proj_behaviour,
+REGISTRY["C13"] = dict(level="proof", theorems=T("C13", "C13_eq", "C13_eq_slice", "C13_cmp", "C13_lex_eq", "C13_lex_lt", "C13_hash", "C13_debug", "C13_readonly"), cases=P.cases_C13, projection=proj_behaviour,
                        oracles=[P.o_spec, P.o_views, P.o_no_defect_panic])
 REGISTRY["C14"] = dict(level="proof", theorems=T("C14", "C14_write", "C14_read", "C14_fill_buf", "C14_consume"), cases=P.cases_C14, projection=proj_behaviour,
                        oracles=[P.o_spec, P.o_views, P.o_no_defect_panic])
